@@ -213,7 +213,7 @@ def param_vector(spec, mact):
 
 def plan_path_keys(ctx, cap=None):
     """state keys along the reference model's closure plan (every draw succeeding), by generative steps;
-    with `cap`, only the first and last cap/2 states of the path are kept for expansion"""
+    with `cap`, `cap` evenly spaced states of the path (first and last included) are kept for expansion"""
     from .seams import draw_values as _dv
     ms, plan = ctx.model.closure_plan()
     idx = {}
@@ -236,8 +236,12 @@ def plan_path_keys(ctx, cap=None):
             keys.append(k)
     # full parent chain first (histories stay replayable), then the cap
     ctx.path_parents = {k: (pk, i, "below") for k, _, pk, i in path if pk is not None}
+    ctx.path_plan = [idx[(a["type"], a["name"], tuple(a["target"]))] for a in plan
+                     if (a["type"], a["name"], tuple(a["target"])) in idx]
     if cap is not None and len(path) > cap:
-        path = path[: cap - cap // 2] + path[-(cap // 2):]
+        # evenly spaced along the plan (first and last included): shallow, middle and deep states
+        idxs = sorted({round(i * (len(path) - 1) / (cap - 1)) for i in range(cap)})
+        path = [path[i] for i in idxs]
     ctx.path_states = [(k, st) for k, st, _, _ in path]
     return set(k for k, _, _, _ in path)
 
@@ -301,6 +305,36 @@ def _explore(ctx, oracles, max_states, record_graph, reps, root_state=None, expa
         o.on_scenario(ctx)
     sides = ("below", "above")
     pre_hooks = [o for o in oracles if hasattr(o, "pre_transition")]
+    if expand_only is not None and root_state is None and getattr(ctx, "path_plan", None):
+        # path-bounded mode, the zero-deviation execution: the whole reference plan as ONE continuous run from the
+        # reset state, every step checked by every oracle (whatever the code remembers from step to step is in play,
+        # which the expansion of individual kept states cannot show)
+        ws, wkey = s0, key0
+        for a_idx in ctx.path_plan:
+            mact = ctx.mactions[a_idx]
+            if reps[a_idx] is None:
+                break
+            wms = ctx.decode(wkey, ws.tensor)
+            tr = Tr()
+            tr.s, tr.key, tr.ms, tr.a_idx, tr.action, tr.mact = ws, wkey, wms, a_idx, ctx.actions[a_idx], mact
+            tr.side, tr.draw = "below", draw_values(mact["prob"])["below"]
+            tr.extra = None
+            for o in pre_hooks:
+                o.pre_transition(ctx, ws, wkey, tr.action, "below")
+            seam.arm(tr.draw)
+            s2, obs, reward, done, info = env.generative_step(ws, reps[a_idx])
+            tr.ndraws = seam.calls
+            tr.s2, tr.obs, tr.reward, tr.done, tr.info = s2, obs, reward, done, info
+            tr.key2 = s2.tensor.tobytes()
+            tr.new_state = False
+            tr.ms2 = ctx.decode(tr.key2, s2.tensor)
+            tr.exp = model.step(wms, mact, tr.draw)
+            tr.obs_fo = None
+            n_trans += 1
+            ctx.parent.setdefault(tr.key2, (wkey, a_idx, "below"))
+            for o in oracles:
+                o.on_transition(ctx, tr)
+            ws, wkey = s2, tr.key2
     while frontier:
         # reverse=True: deepest states first (anything the code remembers from deep states is then in place when
         # the shallow ones are expanded)
